@@ -65,6 +65,9 @@ def main():
     sel = [m for m in M if not args or m[0] in args or m[1] in args]
     assert sh("git -C /repo status --porcelain --untracked-files=no").stdout.strip() == "", "/repo not clean"
     res = []
+    import shutil, tempfile
+    evbak = tempfile.mkdtemp(prefix="verif-evbak-")
+    shutil.copytree("/verif/evidence", evbak + "/evidence")
     for pid, name, file, old, new in sel:
         p = REPO / file
         src = p.read_text()
@@ -80,6 +83,10 @@ def main():
             p.write_text(src)
         print(res[-1], flush=True)
     sh("git -C /repo checkout -- .")
+    shutil.rmtree("/verif/evidence", ignore_errors=True)
+    shutil.copytree(evbak + "/evidence", "/verif/evidence")
+    shutil.rmtree(evbak, ignore_errors=True)
+    shutil.rmtree("/verif/replays", ignore_errors=True)
     missed = [r for r in res if "DETECTED" not in r[2]]
     print(f"\n{len(res) - len(missed)}/{len(res)} detected")
     return 1 if missed else 0
